@@ -114,7 +114,9 @@ def model_params(cfg, max_conn=6, pinned=()):
                      "cea": nc["cea"], "wakeup": nc["wakeup"], "retx": nc["retx"], "validate": nc["validate"], "samehbh": bool(nc.get("samehbh")),
                      # what the node says about itself (World sets these explicitly): content clauses of Mon_C06 / Mon_C11 / Mon_C20
                      "listen": bool(nc.get("listen", True)), "ips": ["10.0.0.1"], "vendor": NODE_VENDOR, "product": NODE_PRODUCT, "osi": NODE_OSI},
-            "peerOrder": order, "peers": peers, "appOrder": aorder, "apps": apps, "maxConn": max_conn, "pinned": list(pinned)}
+            "peerOrder": order, "peers": peers, "appOrder": aorder, "apps": apps, "maxConn": max_conn, "pinned": list(pinned),
+            # other spellings of the peers' names the environment may use in a CER (identities are case-insensitive)
+            "canon": {h.upper(): h for h in order if h.upper() != h}}
 
 
 class StepNotEnabled(Exception):
@@ -467,7 +469,17 @@ class Gen:
         e2e = rng.choice([1, 2, 3, 0]) if rng.random() < 0.5 else self.hbh + 50
         return hbh, e2e
 
+    def _spell(self, m):
+        """every fifth CER spells a configured peer's name in upper case (identities are case-insensitive); derived from the
+        identifiers so that the random stream stays as it was"""
+        if m["cmd"] == "CE" and m["req"] and (m["hbh"] + m["e2e"]) % 5 == 0 and any(p["host"] == m["oh"] for p in self.r.full_cfg["peers"]):
+            m = dict(m, oh=m["oh"].upper())
+        return m
+
     def message(self, vc):
+        return self._spell(self._message(vc))
+
+    def _message(self, vc):
         rng = self.rng
         w = self.r.w
         hbh, e2e = self._ids()
